@@ -839,13 +839,17 @@ def check_c20(tier, seed):
     oracles = ["not_linearizable", "deadlock", "not_a_set", "observe_failed", "open_failed"]
     acc = ConcAcc("C20", tier, seed, oracles, "exploration")
     n = 1800 if tier == "quick" else 120000
-    conc_batch(acc, [("c20", n)], seed, crash_share_num=0)
+    nh = 1200 if tier == "quick" else 80000
+    conc_batch(acc, [("c20", n), ("c20h", nh), ("c20hw", nh // 3)], seed, crash_share_num=0)
     acc.conc_extra()
     rule = ("1-2 writers issuing multi-tuple inserts (2-3 fresh tuples each), deletes, register/drop of a copy rule, and 1-2 readers reading the whole relation through the "
             "snapshot path and through the full query pipeline with persistent rules; writers read their own relation after writing; seeded schedules as for C15; "
             "oracle: exhaustive linearization search - every read equals the model after some prefix respecting real-time order (so a batch is visible entirely or not at all "
-            "and own acknowledged writes are visible), reports and final state explained; non-trivial = >=2 threads, >=1 write, >=1 scheduling decision")
-    return finish(acc, rule, CONC_ASSUME, minimiser=minimise_conc)
+            "and own acknowledged writes are visible), reports and final state explained; non-trivial = >=2 threads, >=1 write, >=1 scheduling decision; "
+            "Handler level (family c20h): the same threads send whole requests through the real Handler (QueryJob::execute) - bulk insert, bulk delete, conditional delete, "
+            "update, rule registration, queries; every statement is one operation for the linearization search, conditional statements race with readers and with writers of "
+            "tuples their condition cannot match; family c20hw: conditional statements race with writers of the tuples they match (open known finding: check-then-act)")
+    return finish(acc, rule, CONC_ASSUME + ["Handler-level requests enter through hook H1 (Handler::verif_execute_sync -> QueryJob::execute), not through tokio"], minimiser=minimise_conc)
 
 
 # ------------------------------------------------------------------------------------- Handler-level scenarios (hsc)
